@@ -328,6 +328,18 @@ def r06_7(ctx, rep):
     kept_by_reference(ctx, rep, "R06.7")
 
 
+@SPEC.rule(
+    "R06.8",
+    "the private copy is made per request: no function of a generator module is wrapped in a caching decorator or writes a "
+    "module-level container — a memoised copy helper hands the second request the tree the first one already flattened in place",
+)
+def r06_8(ctx, rep):
+    from .c05 import BACKEND_GENERATORS
+    from .c25 import module_state_free
+    for rel in BACKEND_GENERATORS:
+        module_state_free(ctx, rep, "R06.8", rel, "the generator module (generate() and every helper it may call)")
+
+
 # -- seeded variants ---------------------------------------------------------
 from ._mut import delete_stmt_where, find_def, replace_in_func  # noqa: E402
 
